@@ -11,10 +11,11 @@ META = {
             "(instance id -> (storage, cache-line offset), destructor zeroing, id recycling, move = swap) and the "
             "adder/summer/maxer/miner cells, for EVERY history of thread spawn/exit and counter construct/destroy/"
             "move/add/reset: value() of an adder/summer at a quiescent point is exactly the sum (and count) of what was "
-            "added to that counter, a new counter reads zero whatever it recycles, local() is private to a live thread "
+            "added to that counter through every public mutator (adder <<, summer << value and << Summary{sum,num} with "
+            "either half zero or negative, reset), a new counter reads zero whatever it recycles, local() is private to a live thread "
             "and stable until it exits, for_each covers every line ever used, the const for_each_alive stays in "
             "bounds.  The slot formulas (id %% N, id / N), the cache test, for_each/for_each_alive bounds and clamps, "
-            "the zeroing index, the comparer and version tests are regenerated from thread_local.h / counter.h on every "
+            "the zeroing index, the comparer and version tests, the absence of any condition in the summer's reader loop are regenerated from thread_local.h / counter.h on every "
             "run, so an edited expression re-opens a proof.  Tie: the extracted model and the real classes (real "
             "threads in strict hand-off, thread exit = join, forked process per history) replay the same histories and "
             "must print the same instance ids, slot indexes, read values and visited lists; monitors check the "
